@@ -5,7 +5,7 @@
 //!   solidextra <type-hex> <data-hex>                    extra chunk of the open solid block
 //!   endsolid                                            close it
 //!   entry <kind 0..3> <name-hex> <data-hex> <comp> <enc> <mode> <ctime> <mtime> <atime>
-//!         <perm: uid,uname-hex,gid,gname-hex,mode> <xattrs: n-hex:v-hex,...> <extras: type-hex:data-hex,...>
+//!         <perm: uid,uname-hex,gid,gname-hex,mode> <xattrs: n-hex:v-hex,...> <extras: type-hex:data-hex,...> [nosize]
 //!         (kind 0 file, 1 directory, 2 symbolic link, 3 hard link; for links data = target)
 //! Encryption uses pbkdf2-sha256 with 1 round and the given password.  Extra chunk types are
 //! taken as they are (`ChunkType::from_unchecked`), so unknown ancillary types can be written too.
@@ -82,6 +82,9 @@ fn build_entry(f: &[&str], pw: Option<&str>, with_extras: bool) -> io::Result<No
             b
         }
     };
+    if f.get(13) == Some(&"nosize") {
+        b.file_size(false); // no fSIZ chunk: what a writer that does not record sizes produces
+    }
     if let Some(t) = optn(f[7]) {
         b.created(Duration::from_secs(t));
     }
